@@ -110,16 +110,22 @@ def digest(*arrays):
     return h.hexdigest()
 
 
-def canon_state(obj, skip=()):
+def canon_state(obj, skip=(), deep=()):
     """Canonical digest of the complete instance state of a scared object (E1).  Attributes of unknown type make
-    the state unmergeable (returns a unique token)."""
+    the state unmergeable (returns a unique token).  Attributes named in `deep` hold scared objects with history-dependent
+    state of their own (e.g. the build analysis of a template attack) and are digested recursively."""
     h = hashlib.sha1()
     for k in sorted(vars(obj)):
         if k in skip:
             continue
         v = vars(obj)[k]
         h.update(k.encode())
-        if isinstance(v, np.ndarray):
+        if k in deep and hasattr(v, '__dict__'):
+            sub = canon_state(v, skip=skip)
+            if sub.startswith('unmergeable'):
+                return 'unmergeable-%d' % id(obj)
+            h.update(sub.encode())
+        elif isinstance(v, np.ndarray):
             h.update(str(v.dtype).encode()); h.update(str(v.shape).encode()); h.update(np.ascontiguousarray(v).tobytes())
         elif isinstance(v, (int, float, str, bool, type(None), tuple, np.generic, np.dtype, range)):
             h.update(repr(v).encode())
